@@ -26,7 +26,9 @@ VERIF = os.path.dirname(HERE)
 REPO = os.environ.get("VERIF_REPO", "/repo")
 LEAN = os.path.join(VERIF, "lean")
 CACHE = os.path.join(VERIF, ".cache")
-EVID = os.path.join(VERIF, "evidence")
+# seeded changes are checked with VERIF_REPO pointing at a scratch worktree and VERIF_EVIDENCE_DIR at a scratch directory,
+# so that the committed evidence always comes from /repo itself
+EVID = os.environ.get("VERIF_EVIDENCE_DIR") or os.path.join(VERIF, "evidence")
 REPLAYS = os.path.join(VERIF, "replays")
 sys.path.insert(0, HERE)
 
